@@ -92,6 +92,16 @@ func LoadProg(repo string, patterns []string, specDir string) (*Prog, error) {
 			p.ModPath = pkgs[i].Module.Path
 		}
 	}
+	// build the bodies of every package of the repository module (dependencies of the
+	// requested packages included), so that callee contracts can be inspected
+	for _, sp := range prog.AllPackages() {
+		if sp.Pkg != nil && p.ModPath != "" && (sp.Pkg.Path() == p.ModPath || strings.HasPrefix(sp.Pkg.Path(), p.ModPath+"/")) {
+			sp.Build()
+			if _, ok := p.SSAPkgs[sp.Pkg.Path()]; !ok {
+				p.SSAPkgs[sp.Pkg.Path()] = sp
+			}
+		}
+	}
 	for fn := range ssautil.AllFunctions(prog) {
 		p.Funcs[fn.String()] = fn
 	}
